@@ -19,15 +19,15 @@ Models (C15/Model.v)
   (C) _convenience.rename_values: dedup of pairs, grouping by graph, validation, pops, renames, re-adds, each
       container operation with the exceptions it can raise (GraphInitializers.__setitem__/__delitem__).
 
-Theorems (Property.v; 22, all closed)
+Theorems (Property.v; 23, all closed)
   (A) full: C15_gen_fuel_suffices, C15_fresh, C15_fresh_node (for EVERY history of register calls with arbitrary
       explicit names: a generated name is outside the seen set before the call, outside the initial set, and
       differs from every name of its kind registered or generated earlier), C15_monotone, C15_explicit_kept,
       C15_graph_adding / C15_graph_history (lifting to Graph(...)/append/extend/insert_*, also when the call
       raises half way); C15_graph_fresh_log (the oracle's own statement as a theorem: for every history the name given to
       an unnamed object is not in the LOG of names the graph registered or assigned so far; ProofsA3);
-      C15_ctor_generated_equals_present_refuted (stronger reading 'not present in the graph': the constructor names
-      unnamed inputs before registering explicit names - known finding + proposed fix).
+      C15_ctor_generated_equals_present (stronger reading 'not present in the graph being built', true since fix
+      f54d66f: explicit names are registered before unnamed inputs are named; was refuted before).
   (B) all full for the fixed code (25cf9b5), under the hypotheses named in Property.v
       (WF0 = clause I5 of the C01 invariant; closed_run = every initializer the traversal meets belongs to a graph it
       enters; well_scoped = every value is first met in its own graph's scope or an enclosing one; NoDup nodes):
@@ -41,7 +41,10 @@ Theorems (Property.v; 22, all closed)
       initializers keyed by current names; proof: a name-free ghost run records per scope whose names the used
       set holds (ProofsB6/B7), a naive run records what each scope owns, on well-scoped traversals naive <= ghost
       (ProofsB8), and the naive scopes are exactly the nested graphs (ProofsB12/B13, custom induction))
-      + C15_fix_post_unsorted_refuted (the scoping hypothesis is needed: known finding) + Example ex_sorted_hyps;
+      + C15_fix_post_sibling_refuted (a scoping hypothesis is still needed: known finding) +
+      C15_fix_post_unsorted_witness_fixed (fix 5fabe37; the model records captured names in the owner's and the
+      intermediate scopes: Model.record_captured; captures from enclosing graphs are outside well_scoped and covered by
+      the tie only) + Example ex_sorted_hyps;
       C15_fix_never_worse (ANY scoping, no hypothesis but 'did not raise': a changed name is new to the graph_like;
       equal names afterwards = both kept or both renamed);
       C15_fix_keeps_unique / C15_fix_keeps_unique_node (+ C15_fix_keeps_unique_shared_refuted: disjointness is needed; whole pass: main graph and functions meeting disjoint
@@ -85,20 +88,19 @@ Findings (known_findings.d/C15.json)
   fixed 25cf9b5  namefix-raises-initializer-collision   inputs [w], initializers [w, w_1] -> ValueError
   fixed 25cf9b5  namefix-renames-unique-name            inputs x, x, x_1 -> x, x_1, x_1_1
                  (my proposed_fixes/C15-namefix-reserve-existing-names.diff, committed unchanged; corpus/C15/b-*.json)
-  known          ctor-names-inputs-before-registering-explicit-names   Graph([unnamed input], initializers=[val_0]) names the
-                 input val_0 (explicit names are registered after the unnamed inputs are named).  Not a violation of
-                 'registered or assigned BEFORE', a violation of the stronger 'present in the graph' reading; proposed fix
-                 proposed_fixes/C15-ctor-register-explicit-names-first.diff (suite passes).
+  fixed f54d66f  ctor-names-inputs-before-registering-explicit-names   Graph([unnamed input], initializers=[val_0]) named
+                 the input val_0 (my proposed fix, committed; now theorem C15_ctor_generated_equals_present).
   known          namefix-unclosed-initializer-capture   a function body reads an initializer `a` of the main graph whose
                  initializers are a, a_1 (not valid ONNX): the run over the function renames it to a_1 without having
                  pre-scanned the main graph's keys -> ValueError (C15_fix_total_unclosed_refuted).
   known          namefix-shared-value-unique-lost       same cause, other symptom: main input x, initializer x (read by a
                  function node whose output is the only value named x_1): the main run renames the initializer to x_1,
                  the function run then renames the unique x_1 (C15_fix_keeps_unique_shared_refuted).
-  known          namefix-unsorted-outer-capture         a subgraph reads an outer value produced by a later node:
-                 two values of the outer graph keep the same name, modified=False.  Proposed fix proposed_fixes/C15-namefix-record-captured-names.diff:
-                 record the name of a value first met in a nested scope also in the scopes of its owning graph and the
-                 graphs in between (suite passes; results differ from the current code only on ill-scoped models).
+  fixed 5fabe37  namefix-unsorted-outer-capture         a subgraph reads an outer value produced by a later node: two values
+                 of the outer graph kept the same name (my proposed fix, committed).
+  known          namefix-sibling-capture                a subgraph reads a value owned by a SIBLING subgraph (not valid ONNX):
+                 the owner's scope is not open at the first visit; two values of the sibling keep the same name
+                 (C15_fix_post_sibling_refuted).
 
 Mutants tried in a scratch worktree (VERIF_REPO), quick tier, seed 0, all re-run against /repo 6138197 (after fixes
 25cf9b5 and dff454e) with the full-strength theorems in place; "oracle X" = concrete replay from part X
@@ -263,7 +265,7 @@ def run_history(ops: list[dict]) -> dict:
                 touched.append(((), ()))
             before = [v.name for v in values]
             g = ir.Graph(ins, [], nodes=[], initializers=inits, name="g")
-            coq_ops.append(f"GCtor {cNl(range(len(values)))}")
+            coq_ops.append(f"GCtor {cNl(range(len(ins)))} {cNl(range(len(ins), len(values)))}")
             explicit = [b for b in before if b is not None]
             for i, v in enumerate(values):
                 if before[i] is None:
@@ -412,7 +414,8 @@ def a_cases_text(results: list[dict]) -> str:
 
 
 def oracle_history(ops: list[dict]) -> list[str]:
-    return run_history(ops)["bad"]
+    r = run_history(ops)
+    return r["bad"] + r["known"]      # the stronger reading at construction is enforced since fix f54d66f
 
 
 # =========================================================================== (B) NameFixPass
@@ -621,12 +624,14 @@ def run_namefix(spec: dict) -> dict:
     vx1 = [tok(("v", after["values"][i]), False) for i in range(len(values))]
     nx1 = [tok(("n", after["nodes"][i]), False) for i in range(len(nodes))]
     vh = {id(v): k for k, v in values.items()}
+    gh = {id(g): k for k, g in graphs.items()}
+    vown = [None if values[i].graph is None else gh.get(id(values[i].graph)) for i in range(len(values))]
     inits = {}
     for gid in sorted(graphs):
         inits[gid] = [(k, vh[id(v)]) for k, v in graphs[gid].initializers.items()]
     return {"err": err, "msg": msg, "modified": modified, "vn": [values[i].name for i in range(len(values))],
             "nn": [nodes[i].name for i in range(len(nodes))], "inits": inits, "struct_same": before == after,
-            "vx0": vx0, "nx0": nx0, "vx1": vx1, "nx1": nx1,
+            "vx0": vx0, "nx0": nx0, "vx1": vx1, "nx1": nx1, "vown": vown,
             "same_model": same_model}
 
 
@@ -648,7 +653,7 @@ def _visible_chain(spec):
     return out
 
 
-def ill_scoped(spec) -> bool:
+def ill_scoped(spec, outer_ok: bool = False) -> bool:
     """True when some value owned by a graph is first reached by the traversal in a scope that is neither that
     graph's nor one enclosing it (unsorted outer-scope capture, sibling capture): its name is then recorded in
     a scope that is discarded before the owner's later values are named.  These are the models outside the
@@ -673,7 +678,10 @@ def ill_scoped(spec) -> bool:
             if v is None or v in seen:
                 return
             if v in owner and gs["gid"] not in anc[owner[v]]:
-                bad[0] = True
+                # first met outside its graph's scope and the enclosing ones.  With outer_ok (the code since fix
+                # 5fabe37) a capture from an ENCLOSING graph is fine: the owner's scope is open and gets the name.
+                if not (outer_ok and owner[v] in anc[gs["gid"]]):
+                    bad[0] = True
             seen.add(v)
         for v in list(gs["ins"]) + list(gs["outs"]) + list(gs["inits"]):
             touch(v)
@@ -802,9 +810,12 @@ def classify_namefix(spec: dict, obs: dict, bad: list[dict]) -> dict[str, list[d
                     else "namefix-renames-unique-name"
         elif b["kind"] in ("dup_value", "shadow"):
             if illsc is None:
-                illsc = ill_scoped(spec)
+                illsc = ill_scoped(spec, outer_ok=True)
             if illsc:
-                key = "namefix-unsorted-outer-capture"
+                key = "namefix-sibling-capture"
+            elif shares_values(spec):
+                # a function body sharing a value with the main graph: the second run meets names of the first
+                key = "namefix-shared-value-unique-lost"
         out.setdefault(key, []).append(b)
     return out
 
@@ -831,13 +842,14 @@ def b_case_term(spec: dict, obs: dict) -> str:
     exp = "(%s, %s, %s, %s, %s, %s, %s)" % (
         copt(obs["err"]), cbool(bool(obs["modified"])), clist(cname(x) for x in obs["vn"]),
         clist(cname(x) for x in obs["nn"]), _cinits(obs["inits"]), cNl(obs["vx1"]), cNl(obs["nx1"]))
-    return "((%s), %s, %s, %s, %s, %s, %s, %s, %s, %s)" % (
+    return "((%s), %s, %s, %s, %s, %s, %s, %s, %s, %s, %s)" % (
         _cgraph(spec["main"]), clist("(" + _cgraph(f) + ")" for f in spec["funcs"]),
         clist(cpair(cN(i), cname(x)) for i, x in enumerate(spec["vnames"])),
         clist(cpair(cN(i), cname(x)) for i, x in enumerate(spec["nnames"])),
         _cinits(init0), cNl(range(nv)), cNl(range(nn)),
         clist(cpair(cN(i), cN(x)) for i, x in enumerate(obs["vx0"])),
-        clist(cpair(cN(i), cN(x)) for i, x in enumerate(obs["nx0"])), exp)
+        clist(cpair(cN(i), cN(x)) for i, x in enumerate(obs["nx0"])),
+        clist(cpair(cN(i), copt(x, cN)) for i, x in enumerate(obs["vown"])), exp)
 
 
 def b_cases_text(cases: list[tuple[dict, dict]]) -> str:
@@ -1178,6 +1190,8 @@ def part_b(ck, n_models: int, corpus: list) -> tuple[list, list]:
             ck.hist("B_shape", "with_functions")
         if ill_scoped(spec):
             ck.hist("B_shape", "ill_scoped")
+        if ill_scoped(spec, outer_ok=True):
+            ck.hist("B_shape", "sibling_capture")
         if unclosed(spec):
             ck.hist("B_shape", "unclosed")
         bad = oracle_namefix(spec, obs)
